@@ -6,7 +6,9 @@ Import ListNotations.
 Open Scope N_scope.
 
 (* ---- accept_iff_coercible:  accepts go_quirks S reparse vds vars = true <-> coercible_all std S vds vars = true
-        is REFUTED on the faithful model, once per confirmed cause ---- *)
+        is REFUTED on the faithful model, once per confirmed cause.  [go_quirks] is the code as it is; the
+        witnesses about [old_quirks] are historical: those causes are repaired in /repo (KNOWN_FINDINGS "fixed:"),
+        their flags are off in [go_quirks], and the strengthened _partial theorem below covers their inputs ---- *)
 Theorem c06_accept_iff_coercible_refuted_int_accepts_non_int32 :
   exists S vds vars, accepts go_quirks S no_reparse vds vars = true /\ coercible_all std S vds vars = false.
 Proof. exact refuted_int_proof. Qed.
@@ -28,31 +30,31 @@ Proof. exact refuted_upload_proof. Qed.
 Print Assumptions c06_accept_iff_coercible_refuted_upload_exempt_from_non_null.
 
 Theorem c06_accept_iff_coercible_refuted_field_null_uses_field_default :
-  exists S vds vars, accepts go_quirks S no_reparse vds vars = true /\ coercible_all std S vds vars = false.
+  exists S vds vars, accepts old_quirks S no_reparse vds vars = true /\ coercible_all std S vds vars = false.
 Proof. exact refuted_field_null_default_proof. Qed.
 Print Assumptions c06_accept_iff_coercible_refuted_field_null_uses_field_default.
 
 Theorem c06_accept_iff_coercible_refuted_list_element_null_uses_field_default :
-  exists S vds vars, accepts go_quirks S no_reparse vds vars = true /\ coercible_all std S vds vars = false.
+  exists S vds vars, accepts old_quirks S no_reparse vds vars = true /\ coercible_all std S vds vars = false.
 Proof. exact refuted_element_null_default_proof. Qed.
 Print Assumptions c06_accept_iff_coercible_refuted_list_element_null_uses_field_default.
 
 Theorem c06_accept_iff_coercible_refuted_inject_defaults_index_drift :
   exists S vds vars,
-    pipeline go_quirks S no_reparse vds vars = PDone (JObj [(b_x, JArr [JObj [(b_k, num t_1)]; JObj []])]) None
+    pipeline old_quirks S no_reparse vds vars = PDone (JObj [(b_x, JArr [JObj [(b_k, num t_1)]; JObj []])]) None
     /\ coercible_all std S vds vars = false.
 Proof. exact refuted_inject_drift_proof. Qed.
 Print Assumptions c06_accept_iff_coercible_refuted_inject_defaults_index_drift.
 
 Theorem c06_accept_iff_coercible_refuted_inject_defaults_enum_ref :
-  exists S vds vars, pipeline go_quirks S no_reparse vds vars = PPanic /\ coercible_all std S vds vars = false.
+  exists S vds vars, pipeline old_quirks S no_reparse vds vars = PPanic /\ coercible_all std S vds vars = false.
 Proof. exact refuted_inject_enum_ref_proof. Qed.
 Print Assumptions c06_accept_iff_coercible_refuted_inject_defaults_enum_ref.
 
 Theorem c06_accept_iff_coercible_refuted_inject_defaults_string_reparsed :
   exists S reparse vds vars,
     reparse b_braces = Some (JObj [])
-    /\ pipeline go_quirks S reparse vds vars = PDone (JObj [(b_x, JObj [(b_d, num t_1)])]) None
+    /\ pipeline old_quirks S reparse vds vars = PDone (JObj [(b_x, JObj [(b_d, num t_1)])]) None
     /\ coercible_all std S vds vars = false.
 Proof. exact refuted_inject_reparse_proof. Qed.
 Print Assumptions c06_accept_iff_coercible_refuted_inject_defaults_string_reparsed.
@@ -62,9 +64,10 @@ Theorem c06_accept_iff_coercible_refuted_remap_name_collision_upload :
 Proof. exact refuted_remap_collision_proof. Qed.
 Print Assumptions c06_accept_iff_coercible_refuted_remap_name_collision_upload.
 
-(* ---- accept_iff_coercible_partial: the engine pipeline of the code as it is, for every schema, operation
-        and variables JSON; Int / ID weakened to "JSON number" ([weak]), every other cause excluded by an
-        explicit condition ---- *)
+(* ---- accept_iff_coercible_partial: the engine pipeline of the code as it is, for every schema, operation and
+        variables JSON.  Int / ID are weakened to "JSON number" ([weak]) and the two remaining Upload causes are
+        excluded by [no_upload_ref]; everything else is well-formedness (unique names / keys, valid defaults) and
+        the model's own recursion budget.  No condition on the shape of the values is left. ---- *)
 Theorem c06_accept_iff_coercible_partial : forall S reparse vds ms,
     fields_nodup S = true ->
     oneof_no_defaults S = true ->
@@ -72,43 +75,30 @@ Theorem c06_accept_iff_coercible_partial : forall S reparse vds ms,
     json_nodup (JObj ms) = true ->
     vars_nodup vds = true ->
     no_upload_ref S vds = true ->
-    defaults_nullable_only S = true ->
     forallb (var_default_ok go_quirks S weak_strict) vds = true ->
-    forallb (var_shaped S ms) vds = true ->
     normalise go_quirks S reparse vds ms <> NFuel ->
     (accepts go_quirks S reparse vds (JObj ms) = true <-> coercible_all weak S vds (JObj ms) = true).
 Proof. exact accept_iff_coercible_partial_proof. Qed.
 Print Assumptions c06_accept_iff_coercible_partial.
 
-(* the variant with "default injection changes nothing" instead of the shape condition *)
-Theorem c06_accept_iff_coercible_partial_inert : forall S reparse vds ms,
-    fields_nodup S = true ->
-    json_nodup (JObj ms) = true ->
-    vars_nodup vds = true ->
-    no_upload_ref S vds = true ->
-    defaults_nullable_only S = true ->
-    forallb (var_default_ok go_quirks S weak_strict) vds = true ->
-    inject_inert go_quirks S reparse vds ms ->
-    (accepts go_quirks S reparse vds (JObj ms) = true <-> coercible_all weak S vds (JObj ms) = true).
-Proof. exact accept_iff_coercible_partial_inert_proof. Qed.
-Print Assumptions c06_accept_iff_coercible_partial_inert.
-
-(* default injection alone, on every well-shaped value: same coercibility, keys still unique, null stays null *)
+(* default injection alone, as repaired, on EVERY value: what it returns coerces exactly when its input does, keys
+   stay unique, null stays null; when it stops with an error the input does not coerce; it never panics *)
 Theorem c06_default_injection_neutral : forall d S reparse,
     fields_nodup S = true -> field_defaults_ok d S = true -> oneof_no_defaults S = true ->
-    forall fuel t v, entry S v t = true -> json_nodup v = true ->
-                     good_res d S v t (inject go_quirks S reparse fuel t v).
-Proof. exact inject_ok. Qed.
+    forall fuel t v, json_nodup v = true -> good_res d S v t (inject go_quirks S reparse fuel t v).
+Proof. intros d S reparse. exact (inject_ok d S reparse go_quirks eq_refl eq_refl eq_refl). Qed.
 Print Assumptions c06_default_injection_neutral.
 
-(* ---- the same pipeline with every cause repaired: the full specification ---- *)
+(* ---- the same pipeline with the remaining causes repaired as well: the full specification ---- *)
 Theorem c06_accept_iff_coercible_repaired : forall S reparse vds ms,
     fields_nodup S = true ->
+    oneof_no_defaults S = true ->
+    field_defaults_ok std_strict S = true ->
     json_nodup (JObj ms) = true ->
     vars_nodup vds = true ->
     no_upload_ref S vds = true ->
     forallb (var_default_ok no_quirks S std_strict) vds = true ->
-    inject_inert no_quirks S reparse vds ms ->
+    normalise no_quirks S reparse vds ms <> NFuel ->
     (accepts no_quirks S reparse vds (JObj ms) = true <-> coercible_all std S vds (JObj ms) = true).
 Proof. exact accept_iff_coercible_repaired_proof. Qed.
 Print Assumptions c06_accept_iff_coercible_repaired.
@@ -116,7 +106,7 @@ Print Assumptions c06_accept_iff_coercible_repaired.
 (* ---- the bare validator against the strict specification (no list rule: that is normalisation's part) ---- *)
 Theorem c06_validator_accept_iff_partial : forall S vds vars,
     fields_nodup S = true -> json_nodup vars = true ->
-    no_upload_ref S vds = true -> defaults_nullable_only S = true ->
+    no_upload_ref S vds = true ->
     (validate go_quirks S vds vars = None <-> coercible_all weak_strict S (map strip_default vds) vars = true).
 Proof. exact validator_accept_iff_partial_proof. Qed.
 Print Assumptions c06_validator_accept_iff_partial.
@@ -153,7 +143,7 @@ Print Assumptions c06_error_names_first_offender_refuted.
 
 Theorem c06_error_names_first_offender_partial : forall S vd vars e,
     fields_nodup S = true -> json_nodup vars = true ->
-    no_upload_ref S [vd] = true -> defaults_nullable_only S = true ->
+    no_upload_ref S [vd] = true ->
     validate go_quirks S [vd] vars = Some e ->
     e_var e = vd_name vd /\ coercible_var weak_strict S vars (strip_default vd) = false.
 Proof. exact first_offender_single_variable_proof. Qed.
